@@ -73,9 +73,12 @@ type Contract struct {
 		When ast.Expr
 		Src  string
 	}
-	Inline  bool
-	Options map[string]string
-	Names   []string
+	Inline      bool
+	Options     map[string]string
+	Names       []string
+	GoFootprint []Family
+	GoRequires  []Clause
+	Witnesses   []Clause // extra witness terms for frame membership
 }
 
 type SpecFunc struct {
@@ -115,7 +118,7 @@ type ContractSet struct {
 	Errors []string
 }
 
-var keywordRe = regexp.MustCompile(`^(func|let|valid|requires|ensures|panics|writes|modifies|loop|invariant|decreases|ensures-after|spec|lemma|pure|trusted|overflow:|floats:|mode:|props:|type|noread-before-write|inline|option|hyp|goal|var)\b`)
+var keywordRe = regexp.MustCompile(`^(func|let|valid|requires|ensures|panics|writes|modifies|loop|invariant|decreases|ensures-after|spec|lemma|pure|trusted|overflow:|floats:|mode:|props:|type|noread-before-write|inline|option|hyp|goal|var|witness|go-footprint|go-requires)\b`)
 
 func parseExprSrc(src string) (ast.Expr, error) {
 	// spec sugar: a ==> b  becomes implies(a, b) (lowest precedence, right assoc)
@@ -498,6 +501,25 @@ func (cs *ContractSet) ParseContractFile(fset *token.FileSet, pkgPath string, fi
 			if c, ok := mk(l, rest); ok {
 				curLoop.After = append(curLoop.After, c)
 			}
+		case "go-footprint":
+			for _, fs := range splitTopAll(rest, ";") {
+				f, err := parseFamily(fs)
+				if err != nil {
+					errf(l, "%v", err)
+					continue
+				}
+				cur.GoFootprint = append(cur.GoFootprint, f)
+			}
+		case "go-requires":
+			if c, ok := mk(l, rest); ok {
+				cur.GoRequires = append(cur.GoRequires, c)
+			}
+		case "witness":
+			for _, ws := range splitTopAll(rest, ",") {
+				if c, ok := mk(l, ws); ok {
+					cur.Witnesses = append(cur.Witnesses, c)
+				}
+			}
 		case "overflow:":
 			cur.Overflow = rest
 		case "floats:":
@@ -631,6 +653,8 @@ func NewContractSet() *ContractSet {
 // role of an obligation kind (used by props: C01(frame,value) selectors)
 func kindRole(kind string) string {
 	switch {
+	case strings.HasPrefix(kind, "go."):
+		return "go"
 	case kind == "frame" || kind == "call.frame" || kind == "noread" || kind == "modifies":
 		return "frame"
 	case kind == "post" || strings.HasPrefix(kind, "inv.") || kind == "lemma" || kind == "after" || kind == "dec":
